@@ -217,6 +217,35 @@ theorem sts_expired_dropped (s : St) (server : Server) (policy : Str) (port dur 
   unfold applyStsPolicy
   simp only [hpol, hparse, hexp, if_true]
 
+theorem dictGet_dictSet_same {β : Type} (d : List (Str × β)) (k : Str) (v : β) : dictGet (dictSet d k v) k = some v := by
+  induction d with
+  | nil => simp [dictSet, dictGet]
+  | cons p ps ih =>
+    obtain ⟨k', v'⟩ := p
+    unfold dictSet
+    by_cases h : k' = k
+    · simp [h, dictGet]
+    · simp [h, dictGet, ih]
+
+/-- Key discipline of the STS store: the driver's current server carries the host name exactly as it is
+configured (any spelling), `_onCapSts` stores the policy under that very string and `_applyStsPolicy`
+looks it up under the configured string again — so the policy stored on a verified connection is applied
+(its port, forced verification) to every later connection to that host until it expires. -/
+theorem sts_stored_policy_applied (cfg : Cfg) (policy : Str) (s : St) (port dur : Int)
+    (hsec : secureConn cfg s = true) (hparse : parseStsPolicy policy true = some ⟨port, some dur⟩)
+    (server : Server) (hh : server.host = s.drv.current.host)
+    (hexp : stsExpired (dictGet s.db.lastDisc server.host) dur s.now = false) :
+    applyStsPolicy (onCapSts cfg policy s) server =
+      some (⟨server.host, port, server.attempt, true⟩, onCapSts cfg policy s) := by
+  have hst : onCapSts cfg policy s =
+      { s with db := { s.db with policies := dictSet s.db.policies s.drv.current.host policy } } := by
+    unfold onCapSts; simp only [hsec, hparse, if_true]
+  rw [hst]
+  exact sts_applied _ server policy port dur (by simp only; rw [hh]; exact dictGet_dictSet_same _ _ _) hparse hexp
+
+/-- the connected server keeps the configured spelling of the host name -/
+theorem connectTo_host (cfg : Cfg) (srv : Server) (s : St) : (connectTo cfg srv s).drv.current.host = srv.host := rfl
+
 def exStored : St := { db := { policies := [("h".toList, "port=6697,duration=1000".toList)] }, now := 5000 }
 example : (applyStsPolicy exStored ⟨"h".toList, 6667, none, false⟩).map (·.1) = some ⟨"h".toList, 6697, none, true⟩ := by decide
 
